@@ -129,5 +129,32 @@ func VerifC20WatchSet() {
 			vnd.Cover("C20.settled-several")
 		}
 	}
+	// a second Wait on the same (now smaller) set: only current members that are
+	// closed may be returned
+	if err == nil && vnd.Param("SECOND", 1) == 1 {
+		ctx2, cancel2 := context.WithTimeout(context.Background(), time.Duration(unit))
+		res2, err2 := ws.Wait(ctx2, 0)
+		cancel2()
+		now := int((vnd.Now() - t0) / unit)
+		for _, r := range res2 {
+			idx := -1
+			for i := range chans {
+				if (<-chan struct{})(chans[i]) == r {
+					idx = i
+				}
+			}
+			vnd.Assert(idx >= 0, "C20.second.returned-not-a-member")
+			for _, r1 := range res {
+				vnd.Assert(r1 != r, "C20.second.returned-a-removed-channel")
+			}
+			if idx >= 0 {
+				vnd.Assert(closeAt[idx] >= 0 && closeAt[idx] <= now, "C20.second.returned-not-closed")
+			}
+		}
+		if err2 == nil {
+			vnd.Assert(len(res2) > 0, "C20.second.nil-error-empty-result")
+		}
+		vnd.Cover("C20.second-wait")
+	}
 	vnd.Cover("C20.end")
 }
